@@ -231,6 +231,15 @@ impl<'a> GetLastStateProofProcess<'a> {
 
         let last_block_number = last_block.number();
 
+        // The start block is the last proved block: it can not be after the last block.
+        if start_block_number > last_block_number {
+            let errmsg = format!(
+                "the start block number {start_block_number} is greater than \
+                 the last block number {last_block_number}"
+            );
+            return StatusCode::InvalidRequest.with_context(errmsg);
+        }
+
         let reorg_last_n_numbers = if start_block_number == 0
             || snapshot
                 .get_ancestor(&last_block_hash, start_block_number)
